@@ -8,6 +8,7 @@ open Pharmpy Pharmpy.C17 Pharmpy.C17.DiGraph
     (build  TASKS OPS)                 -> (DUMP-or-ERR per op)
     (exec   TASKS OPS b)               -> executed workflow, dask dict, result, spec value
     (call   TASKS OPS b)               -> dict of the workflow call_workflow submits
+    (callexec TASKS OPS b)             -> value of the workflow call_workflow submits
     (replay TASKS OPS b (name ...))    -> value at 'results' along the given firing order
 
   TASKS = ((id takesCtx (SARG ...) [name]) ...)       SARG = (s "x") | ctx | (call j "a" ...) | (list ATOM ...)
@@ -213,6 +214,16 @@ def handle (req : Sexp) : Sexp :=
     | some (tb, bs), some b =>
       let (st, g') := calledWorkflow ⟨tb, nextId tb⟩ (bs.get b)
       dictS (asDaskDict st.tb g')
+    | _, _ => bad
+  | .list [.atom "callexec", ts, .list ops, b] =>
+    match prep ts ops, b.asNat? with
+    | some (tb, bs), some b =>
+      let (st, g') := calledWorkflow ⟨tb, nextId tb⟩ (bs.get b)
+      match asDaskDict st.tb g' with
+      | .ok d => match (daskGet d).1 with
+        | .ok v => .list [.atom "ok", .atom v]
+        | .error _ => .list [.atom "err", .atom "RuntimeError"]
+      | .error _ => .list [.atom "err", .atom "ValueError"]
     | _, _ => bad
   | .list [.atom "replay", ts, .list ops, b, ord] =>
     match prep ts ops, b.asNat?, nats? ord with
